@@ -92,7 +92,7 @@ def verifySignatures (H : Bytes → Bytes) (cs : ClientState) (data : Bytes) (si
 structure Proof where
   data : Bytes
   sigs : List Sig
-  /-- `ABIDecodeStateAttestation`: (height, timestamp in seconds) -/
+  /-- go-ethereum's ABI decoding of the data as (uint64 height, uint64 timestamp in seconds) -/
   decState : Option (Nat × Nat)
   /-- `ABIDecodePacketAttestation`: (height, [(path, commitment)]) -/
   decPacket : Option (Nat × List (Bytes × Bytes))
@@ -100,6 +100,16 @@ deriving Repr
 
 /-- `timestampSeconds * nanosPerSecond` in uint64 arithmetic -/
 def nanos (secs : Nat) : Nat := (secs * 1000000000) % 2 ^ 64
+
+/-- `math.MaxUint64 / nanosPerSecond` -/
+def maxSeconds : Nat := 18446744073
+
+/-- `ABIDecodeStateAttestation`: the ABI decoder's (height, seconds), rejected (`ErrInvalidTimestamp`) when
+the nanosecond conversion would overflow uint64 -/
+def Proof.stateAtt (pr : Proof) : Option (Nat × Nat) :=
+  match pr.decState with
+  | none => none
+  | some (h, secs) => if secs > maxSeconds then none else some (h, secs)
 
 /-- consensus states by (revision number, revision height) → timestamp -/
 abbrev Cons := List ((Nat × Nat) × Nat)
@@ -203,7 +213,7 @@ def checkForMisbehaviour (s : State) (msg : ClientMsg) : Option Bool :=
   match msg with
   | none => none
   | some pr =>
-    match pr.decState with
+    match pr.stateAtt with
     | none => none
     | some (h, secs) =>
       match s.cons.get (0, h) with
@@ -218,7 +228,7 @@ def updateState (s : State) (msg : ClientMsg) : Option State :=
   match msg with
   | none => none
   | some pr =>
-    match pr.decState with
+    match pr.stateAtt with
     | none => none
     | some (h, secs) =>
       some { cs := { s.cs with latest := if h > s.cs.latest then h else s.cs.latest },
